@@ -180,6 +180,17 @@ def run(tier):
     else:
         res.violation("from_decoded:payload-encoded-as-given", "ByronAddress::from_decoded does not encode the payload exactly as given (%s): building an address from a payload and decoding it back no longer yields that payload" % why,
                       where="%s:%s" % (fd.file, fd.line), rule="R-FRAME")
+    # R-SHAPE/R-DUAL (round-trip half): the hand-written CBOR codecs of the Byron address parts (address type, attributes,
+    # stake distribution) are well-formed and dual — what the encoder writes for a value is read back as the same variant,
+    # with readers at least as wide as what is written (engine E4, pv/x_codec.py; same rule as C22/C03).
+    from pv import x_codec
+    tbl = x_codec.load_table()
+    cm = x_codec.Model(["pallas_codec", "pallas_crypto", "pallas_addresses"], table=tbl)
+    cadts = cm.codec_types(file_prefixes=["pallas-addresses/src/"])
+    n_before = len(res.obligations)
+    x_codec.check_types(res, cm, cadts, tbl, set())
+    res.floor("hand-written Byron address codecs", len(cadts), 2)
+    res.floor("codec obligations (shape + duality)", len(res.obligations) - n_before, 8)
     res.assumptions += ["crc crate computes CRC-32/ISO-HDLC", "addresses decoded as part of a block body (pallas-primitives byron types) are not 'parsed addresses' in the sense of the property"]
     return finish(res,
                   explanation="Must-pass-through rule: every entry point that parses a Byron address from external bytes/text can only return Ok after a function that "
